@@ -384,50 +384,80 @@ func ruleIndexBound(c *eng.Ctx) {
 	if fn := c.P.Func("core.(*XRefParser).parseXRefStream"); fn == nil {
 		c.Undec(R, "core.(*XRefParser).parseXRefStream", token.NoPos, "anchor not found")
 	} else {
-		// index[i+1]
-		eng.Instrs(fn, false, func(in ssa.Instruction) {
-			ia, ok := in.(*ssa.IndexAddr)
-			if !ok {
-				return
-			}
-			pairRead := false
-			if b, ok := ia.Index.(*ssa.BinOp); ok && b.Op == token.ADD {
-				if k, isC := eng.ConstInt(b.Y); isC && k == 1 {
-					if _, isInd := eng.Induction(ia.Index); !isInd { // not the rotated range index of a `for i := range` loop
-						pairRead = true
+		// index[i+1] — in the parser or in the helper the dictionary reading was moved to
+		for _, fn := range eng.Cluster(fn, 2) {
+			eng.Instrs(fn, false, func(in ssa.Instruction) {
+				ia, ok := in.(*ssa.IndexAddr)
+				if !ok {
+					return
+				}
+				pairRead := false
+				if b, ok := ia.Index.(*ssa.BinOp); ok && b.Op == token.ADD {
+					if k, isC := eng.ConstInt(b.Y); isC && k == 1 {
+						if _, isInd := eng.Induction(ia.Index); !isInd { // not the rotated range index of a `for i := range` loop
+							pairRead = true
+						}
 					}
 				}
-			}
-			// the same read written on a remainder slice: pairs[1] where pairs = pairs[2:] around the loop
-			if k, isC := eng.ConstInt(ia.Index); isC && k == 1 {
-				if ph, ok := ia.X.(*ssa.Phi); ok && isLoopCarried(ph) {
-					for _, e := range ph.Edges {
-						if sl, ok := e.(*ssa.Slice); ok && sl.X == ssa.Value(ph) {
-							if lo, isC := eng.ConstInt(sl.Low); isC && lo == 2 {
-								pairRead = true
+				// the same read written on a remainder slice: pairs[1] where pairs = pairs[2:] around the loop
+				if k, isC := eng.ConstInt(ia.Index); isC && k == 1 {
+					if ph, ok := ia.X.(*ssa.Phi); ok && isLoopCarried(ph) {
+						for _, e := range ph.Edges {
+							if sl, ok := e.(*ssa.Slice); ok && sl.X == ssa.Value(ph) {
+								if lo, isC := eng.ConstInt(sl.Low); isC && lo == 2 {
+									pairRead = true
+								}
 							}
 						}
 					}
 				}
-			}
-			if !pairRead {
-				return
-			}
-			even := eng.GuardedBy(fn, ia.Block(), func(f eng.Fact) bool {
-				op, x, y, ok := f.Cmp()
-				if !ok || op != token.EQL {
-					return false
+				if !pairRead {
+					return
 				}
-				rem, isRem := x.(*ssa.BinOp)
-				k, isC := eng.ConstInt(y)
-				if !isRem || rem.Op != token.REM || !isC || k != 0 {
-					return false
+				even := eng.GuardedBy(fn, ia.Block(), func(f eng.Fact) bool {
+					op, x, y, ok := f.Cmp()
+					if !ok || op != token.EQL {
+						return false
+					}
+					rem, isRem := x.(*ssa.BinOp)
+					k, isC := eng.ConstInt(y)
+					if !isRem || rem.Op != token.REM || !isC || k != 0 {
+						return false
+					}
+					m, isM := eng.ConstInt(rem.Y)
+					return isM && m == 2
+				})
+				if !even {
+				// the dictionary may be read (and /Index validated) by another function of the cluster that hands the
+				// validated array on: accept an odd-length rejection there
+				for _, h := range eng.Cluster(c.P.Func("core.(*XRefParser).parseXRefStream"), 2) {
+					if h == fn {
+						continue
+					}
+					eng.Instrs(h, false, func(in2 ssa.Instruction) {
+						b, ok := in2.(*ssa.BinOp)
+						if !ok || (b.Op != token.EQL && b.Op != token.NEQ) {
+							return
+						}
+						rem, isRem := b.X.(*ssa.BinOp)
+						k, isC := eng.ConstInt(b.Y)
+						if !isRem || rem.Op != token.REM || !isC || k != 0 {
+							return
+						}
+						if m, isM := eng.ConstInt(rem.Y); !isM || m != 2 {
+							return
+						}
+						if call, ok := rem.X.(*ssa.Call); ok && eng.CalleeName(call) == "builtin:len" {
+							if _, isIf := lastIf(b.Block()); isIf {
+								even = true
+							}
+						}
+					})
 				}
-				m, isM := eng.ConstInt(rem.Y)
-				return isM && m == 2
-			})
+			}
 			c.Check(even, R, "core.(*XRefParser).parseXRefStream#index-pairs", ia.Pos(), "/Index is read in pairs only after len%2 == 0", "/Index[i+1] is read without checking that the array has an even length: an odd /Index panics")
-		})
+			})
+		}
 		// w[i] stores
 		wOK, wSeen := true, false
 		// the /W validation may be a helper returning the widths: every function of the cluster is scanned in its own context
@@ -597,9 +627,20 @@ func hasDepthGuard(fn *ssa.Function, what string, others ...*ssa.Function) bool 
 	}
 	// the bound test and the +1 may sit in different members of the cycle (loop body extracted into a method)
 	eng.Instrs(fn, false, scan)
+	seen := map[*ssa.Function]bool{fn: true}
 	for _, o := range others {
-		if o != fn {
+		if !seen[o] {
+			seen[o] = true
 			eng.Instrs(o, false, scan)
+		}
+	}
+	// or in a helper that a member of the cycle calls (the lookup that precedes the descent, split off)
+	for _, o := range append([]*ssa.Function{fn}, others...) {
+		for _, ci := range eng.Calls(o, false, func(string, ssa.CallInstruction) bool { return true }) {
+			if g := ci.Common().StaticCallee(); g != nil && g.Blocks != nil && g.Pkg == fn.Pkg && !seen[g] {
+				seen[g] = true
+				eng.Instrs(g, false, scan)
+			}
 		}
 	}
 	return cmp && inc
@@ -1054,6 +1095,10 @@ func depthBalance(c *eng.Ctx, R, fnName, counter string, successOnly bool) {
 		c.Undec(R, fnName, token.NoPos, "anchor not found")
 		return
 	}
+	depthBalanceIn(c, R, fnName, fn, counter, successOnly)
+}
+
+func depthBalanceIn(c *eng.Ctx, R, fnName string, fn *ssa.Function, counter string, successOnly bool) {
 	delta := func(in ssa.Instruction) int {
 		st, ok := in.(*ssa.Store)
 		if !ok {
@@ -1090,6 +1135,24 @@ func depthBalance(c *eng.Ctx, R, fnName, counter string, successOnly bool) {
 		for i, in := range b.Instrs {
 			if delta(in) == 1 {
 				incBlk, incIdx = b, i
+			}
+		}
+	}
+	if incBlk == nil && !strings.HasPrefix(R, "#") {
+		// the descent (increment, nested run, decrement) may have been split off into a helper of the anchor
+		for _, g := range eng.Cluster(fn, 2) {
+			if g == fn || g.Pkg != fn.Pkg {
+				continue
+			}
+			has := false
+			eng.Instrs(g, false, func(in ssa.Instruction) {
+				if delta(in) == 1 {
+					has = true
+				}
+			})
+			if has {
+				depthBalanceIn(c, R, fnName, g, counter, successOnly)
+				return
 			}
 		}
 	}
